@@ -9,7 +9,7 @@ import re
 import vlib
 
 # the proof modules are compiled by the builder until coq/_CoqProject lists them (then: MatFinal.vo)
-PROOF_MODULES = []
+PROOF_MODULES = ["C26/MatFinal.vo", "C26/MatWfOps.vo", "C26/MatTotal.vo", "C26/MatErrSound.vo", "C26/MatFindings.vo"]
 OBLIGATIONS = [
     "C26/P_matrix_add_sound.v",
     "C26/P_hadamard_product_sound.v",
@@ -28,6 +28,12 @@ OBLIGATIONS = [
     "C26/P_is_lower_sound.v",
     "C26/P_is_upper_sound.v",
     "C26/P_is_toeplitz_sound.v",
+    "C26/P_predicates_total.v",
+    "C26/P_unary_total.v",
+    "C26/P_error_sound.v",
+    "C26/P_wf_preserved.v",
+    "C26/P_run_wf.v",
+    "C26/P_canon_not_preserved_refuted.v",
     "C26/P_nonvacuous.v",
 ]
 
@@ -248,6 +254,9 @@ CORPUS = [
     "; D 2 2 3 D 2 1/2 1/3 mul 2",
     "; M 2 2 1 1 0 1 M 2 2 1 -1 0 1 mul 2",
     "S1=2x2 ; S 1 conj tr conj",
+    "n30=3 ; M 1 2 2 0 M 2 4 0 3 3 0 0 -3/2 0 0 I n30 k 1 M 3 1 0 2 -1 mul 5",
+    "n30=3 ; M 1 2 1 2 I n30 M 3 1 1 2 3 mul 3",
+    "n30=3 ; D 2 1 2 I n30 D 3 1 2 3 mul 3",
     "S1=2x2 S2=2x2 ; S 1 S 2 add 2 I 2 add 2 tr",
     "S1=2x2 ; D 2 1 2 S 1 D 2 3 4 mul 3",
     "S1=2x2 ; M 2 2 1 2 3 4 D 2 1 2 S 1 D 2 3 4 M 2 2 0 1 1 0 mul 5",
@@ -259,6 +268,9 @@ CORPUS = [
     "S1=2x3 ; S 1 Z 3 4 mul 2",
     "S1=2x3 ; Z 4 2 S 1 mul 2",
     "S1=2x2 ; S 1 conj tr conj",
+    "n30=3 ; M 1 2 2 0 M 2 4 0 3 3 0 0 -3/2 0 0 I n30 k 1 M 3 1 0 2 -1 mul 5",
+    "n30=3 ; M 1 2 1 2 I n30 M 3 1 1 2 3 mul 3",
+    "n30=3 ; D 2 1 2 I n30 D 3 1 2 3 mul 3",
 ]
 
 
@@ -293,7 +305,10 @@ def classify(case, impl, model):
             key = "C26/%s" % cls
         out.append((key, "case `%s`: %s" % (case, item)))
     if "CRASH" in canon or "HANG" in canon or "UNCAUGHT" in canon or "DIED" in canon:
-        if canon == "CRASH:11" and model == canon:
+        if canon == "CRASH:6" and model == canon and re.search(r"\bmul \d", case):
+            # the model reaches ErrOOB in one of the folding helpers of matrix_mul
+            key = "C26/matrix_mul:unchecked-fold-after-identity"
+        elif canon == "CRASH:11" and model == canon:
             key = "C26/check_matching_sizes:null-size-deref"
         elif canon.endswith("CRASH:6") and " | tr=" in canon and model == canon:
             key = "C26/is_toeplitz:oob-wide-dense"
